@@ -99,6 +99,27 @@ PROPS["C05"] = dict(
                "interpolation), anything probabilistic (distance from low degree), folding factors other than the ones exercised.",
     explanation=MIX)
 
+PROPS["C04"] = dict(
+    level="other", claimed=True,
+    level_text="Function-local Fiat-Shamir contracts on the real channel code with doubles (Air, hasher, coin): every "
+               "ProverChannel send/commit records the message in the proof and reseeds the coin with exactly that message; the seed "
+               "is hash(context || public inputs); grinding uses the current coin and the smallest nonce; query positions come from "
+               "draw_integers with that nonce; on the verifier side FriVerifier::new reseeds-then-draws per commitment in order. "
+               "The coin's own state-transition contract is C19's.",
+    level_note="NOT decided: the order of calls inside Prover::generate_proof and verifier::perform_verification (two long "
+               "generic functions that need a real proof to execute) - a consistent reordering there is invisible to this check; "
+               "auxiliary-segment randomness; the verifier's proof-of-work comparison.",
+    explanation=MIX)
+PROPS["C03"] = dict(
+    level="other", claimed=True,
+    level_text="Canonical decoding of proof components as Kani contracts on the real parsers: OodFrame (no ignored bytes in any of "
+               "its three vectors, frame size fixed), Commitments (every byte consumed), Queries container, and the FRI remainder "
+               "being bound to its commitment (acceptance implies hash(remainder) == last layer commitment).",
+    level_note="Bounded shapes (stated per obligation). NOT decided: bit-flip closure of a whole proof, Queries::parse / "
+               "FriProofLayer::parse leaf recomputation, authentication of openings in read_queried_trace_states / "
+               "read_constraint_evaluations, substitutions that need the full verifier.",
+    explanation=MIX)
+
 NOT_APPLICABLE.update({
     "C01": "whole-protocol completeness over all AIR programs: no per-function contract carries it (DESIGN.md 4.C01)",
     "C02": "cryptographic soundness is probabilistic and adversarial, not a safety property of any function (DESIGN.md 4.C02)",
